@@ -77,9 +77,13 @@ def shard(col, module, pop_bound, limit, n_groups, with_assertions):
                         continue
                 before_cov = fresh_coverage(pipe, suite)
                 before_stmts = {id(c): stmts(c.test_case) for c in suite.test_case_chromosomes}
+                # "every statement whose variable is asserted on": an assertion whose source is (a field of)
+                # the variable the statement binds; exception assertions are not on a variable
                 asserted = {id(c): [(norm_stmt, st.bound_variable)
                                     for norm_stmt, st in zip(stmts(c.test_case), c.test_case.statements())
-                                    if st.assertions and st.bound_variable]
+                                    if st.bound_variable and any(
+                                        str(getattr(a, "source", "") or "").split(".", 1)[0] == st.bound_variable
+                                        for a in st.assertions)]
                             for c in suite.test_case_chromosomes}
                 size_before = sum(c.test_case.size() for c in suite.test_case_chromosomes)
                 tag = f"{strategy}:{direction}|{'asserted' if with_assertions else 'plain'}"
